@@ -98,7 +98,8 @@ def run(tier, seed):
     space = space[0]
     spellings = sorted(space["spellings"])
     ops = sorted(space["ops"], key=lambda o: json.dumps(o["argv"]))
-    chains = [[o] for o in ops]
+    copyops = sorted(space["copyops"], key=lambda o: json.dumps(o["argv"]))
+    chains = [[o] for o in ops] + [[c] for c in copyops] + [[o, c] for o in ops for c in copyops]
     pairs = [list(p) for p in itertools.product(ops, repeat=2)]
     rnd.shuffle(pairs)
     chains += pairs if thorough else pairs[:1500]
